@@ -135,6 +135,9 @@ func (f *flowSpec) Call(x *gea.Exec, st *gea.State, call *ast.CallExpr, env *gea
 	switch {
 	case strings.HasPrefix(full, "github.com/hashicorp/go-metrics"), strings.HasPrefix(full, "log."), strings.HasPrefix(full, "fmt."):
 		return one(st)
+	case recv == "github.com/google/btree.BTree":
+		s := x.Effect(st, "BTREE:"+callee.Name(), call.Pos(), args)
+		return one(s)
 	case recv == "bytes.Buffer":
 		s := x.Effect(st, "BUF:"+callee.Name(), call.Pos(), args)
 		return one(s)
